@@ -634,6 +634,24 @@ def run_cli(u, ctx):
                         if kind == 'plain' and not s and rc != 0:
                             ctx.violation('plain-fails', 'unsigned tree fails without '
                                           '-s (rc=%r)' % (rc,), case)
+        # several trees on one command line: -s asks for an accepted signature on each
+        for order in (('plain', 'good'), ('good', 'plain'), ('bad', 'good'),
+                      ('good', 'good'), ('plain', 'good', 'good')):
+            argv = ['verify', '-R', '-s', '-K', kpath] + [
+                os.path.join(d, 'tree-' + k) for k in order]
+            rc = cli(argv)
+            case = {'kind': 'cli', 'manifest': '+'.join(order), 's': True, 'P': False,
+                    'K': 'signer'}
+            ctx.case(sig=('cli-multi', order), case=case, klass='cli')
+            ctx.count('cli:multi_path_runs')
+            all_good = all(k == 'good' for k in order)
+            if rc == 0 and not all_good:
+                ctx.violation('require-signed-passes:multi-path', '`verify -s %s` exits '
+                              '0 although not every tree carries an accepted signature'
+                              % ' '.join(order), case)
+            elif rc != 0 and all_good:
+                ctx.violation('require-signed-fails-on-good', '`verify -s good good` '
+                              'exits %r' % (rc,), case)
         ctx.sample({'kind': 'cli', 'matrix': '3 manifests x -s x -P x -K{none,signer,'
                     'other}'}, 'cli')
 
